@@ -103,7 +103,7 @@ func init() {
 func init() {
 	properties["C16"] = &Property{
 		Title:       "accepted configurations never panic, hang or fail spuriously",
-		Rules:       []string{"R-INIT-ORDER", "R-VERIFY-REQ", "R-PANIC", "R-ERRSET", "R-LOOPS-PARSER", "R-MARGIN", "R-HASHRANGE", "R-GSAP-REBUILD", "R-GSAP-COVERED", "R-LOAD8", "R-BUCKET-INDEX", "R-INIT-NOFAIL", "R-WRITEBOUND", "R-DP-STEP", "R-DP-LIT", "R-FAIL-ATOMIC", "R-RESET-INSTALL"},
+		Rules:       []string{"R-INIT-ORDER", "R-VERIFY-REQ", "R-VERIFY-PASS", "R-PANIC", "R-ERRSET", "R-LOOPS-PARSER", "R-MARGIN", "R-HASHRANGE", "R-GSAP-REBUILD", "R-GSAP-COVERED", "R-LOAD8", "R-BUCKET-INDEX", "R-INIT-NOFAIL", "R-WRITEBOUND", "R-DP-STEP", "R-DP-LIT", "R-FAIL-ATOMIC", "R-RESET-INSTALL"},
 		Decided:     "init order (SetDefaults, Verify, error returned, completed value stored); every downstream range requirement is implied by Verify; every reachable explicit panic is discharged; the error set of the parser API; termination templates for all parser-side loops of package lz; 7-byte margin.",
 		NotDecided:  "implicit run-time panics (index out of range in the sorters, integer overflow), memory exhaustion, termination of ssort/trSort (package suffix loops are not matched to templates).",
 		Assumptions: []string{"an io.Reader does not return (0, nil) forever", "DivSufSort-internal panics (algorithm invariants) are not decided"},
